@@ -5,7 +5,7 @@ From Verif Require Import lib.Wire c03.Int64 c03.Model c03.Spec c03.Witness
      c03.Proofs_Int64 c03.Proofs_Base c03.Proofs_Limiter c03.Proofs_Reach c03.Proofs_Link
      c03.Proofs_OpsMem c03.Proofs_Hist c03.Proofs_Mon c03.Proofs_Link2 c03.Proofs_Transfer c03.Proofs_OpsRepar
      c03.Proofs_SetPeer c03.Proofs_Hist2 c03.Proofs_Mon2 c03.Proofs_Keys c03.Proofs_Refs c03.Proofs_RefInv c03.Proofs_GC
-     c03.Proofs_Prio c03.Proofs_Full.
+     c03.Proofs_Prio c03.Proofs_Cap c03.Proofs_CapInv c03.Proofs_Full.
 Import ListNotations.
 Local Open Scope Z_scope.
 
@@ -87,9 +87,8 @@ Print Assumptions c03_release_exact.
 (* connLimiter, for every configuration (any subnet rules, any prefix table,
    any allow-list) and every history of the manager's operations - the whole
    operation language, unbounded: no per-prefix and no per-subnet counter ever
-   exceeds its configured cap.  (That a counter equals the number of open
-   connections of that subnet is what the allow-list retry breaks: see
-   c03_allowlist_cap_refuted below.) *)
+   exceeds its configured cap.  (That a counter IS the number of open
+   connections of that subnet: c03_subnet_cap below.) *)
 Theorem c03_limiter_counts_within_caps : forall c ops,
   lim_inv c (lims (run c (init_state c) ops)).
 Proof. intros c ops. apply run_lims. exact (init_limiter_inv c). Qed.
@@ -211,16 +210,29 @@ Theorem c03_release_all_zero : forall c ops t, disciplined c ops ->
 Proof. exact release_all_zero_full. Qed.
 Print Assumptions c03_release_all_zero.
 
+(* "the number of simultaneously open connections from one IP subnet never
+   exceeds the configured per-subnet cap": the limiter's counters ARE the numbers
+   of open connections (LimCount is part of InvG), so whenever a connection with
+   an IP endpoint is admitted, the open connections governed by the same network
+   prefix - or, without one, those in the endpoint's subnet under every subnet
+   rule -, the new one included, are within the cap (Spec.cap_ok counts them from
+   the abstract state, i.e. from the history itself) *)
+Theorem c03_subnet_cap : forall c ops i inb usefd ip, disciplined c (ops ++ [OOpenConn i inb usefd (Some ip)]) ->
+  snd (step c (run c (init_state c) ops) (OOpenConn i inb usefd (Some ip))) = 0 ->
+  cap_ok c (open_ips (run_aT c (init_state c) astate0 (ops ++ [OOpenConn i inb usefd (Some ip)])) false) ip = true.
+Proof. exact subnet_cap_full. Qed.
+Print Assumptions c03_subnet_cap.
+
 (* THE monitor that is run on the implementation's traces accepts every trace of
    the model: answer legality, choice among the candidate successors, usage ==
-   sum of holders, signs, limits, and the priority threshold after every accepted
-   ReserveMemory (ck_prio).  [ck_proved]: the two remaining switches - the
-   justification of resource-limit refusals (ck_just) and the per-subnet cap
-   against the open connections of the history (ck_cap) - are off; they are
+   sum of holders, signs, limits, the priority threshold after every accepted
+   ReserveMemory (ck_prio) and the per-subnet cap against the open connections
+   of the history (ck_cap).  The one remaining switch - the justification of
+   resource-limit refusals by a scope that would exceed (ck_just) - is off; it is
    covered by the correspondence only *)
 Theorem c03_trace_holds : forall c ops, disciplined c ops ->
-  mon_run_gen (mkChecks true false false) c astate0 [] 0 (model_trace c (init_state c) ops) = [].
-Proof. exact monitor_accepts_prio. Qed.
+  mon_run_gen (mkChecks true false true) c astate0 [] 0 (model_trace c (init_state c) ops) = [].
+Proof. exact monitor_accepts_prio_cap. Qed.
 Print Assumptions c03_trace_holds.
 
 (* the hypothesis is satisfiable: a history through every operation incl. gc with
